@@ -134,6 +134,10 @@ GOps(st, call) ==       \* operators this call appends
     [] c = "set_word_spacing" -> <<E("Tw", Nums(n, TolCoord))>>
     [] c = "set_character_spacing" -> <<E("Tc", Nums(n, TolCoord))>>
     [] c = "paint_shading" -> <<E("sh", <<[k |-> "name", b |-> call.name]>>)>>
+    \* place an image or form XObject: q, a matrix that maps the unit square onto (x, y, w, h), Do, Q
+    [] c = "draw_image" -> <<E("q", <<>>),
+                             E("cm", Nums(<<n[3], Const("0", 0), Const("0", 0), n[4], n[1], n[2]>>, TolCoord)),
+                             E("Do", <<[k |-> "name", b |-> call.name]>>), E("Q", <<>>)>>
     [] OTHER -> <<>>                                  \* set_fill_color / set_stroke_color: state only
 GStep(st, call) ==
   CASE call.c = "set_fill_color" -> [st EXCEPT !.fill = call.col]
